@@ -266,6 +266,7 @@ type VC struct {
 	tagOrder []string
 	usedSpecs map[string]bool
 	havocLog  []string // callees whose effect was havoc-everything
+	litNames  map[string]string
 }
 
 type Obligation struct {
@@ -285,6 +286,9 @@ type Obligation struct {
 	TimeS   float64
 	Model   string
 	Expect  string // "unsat" normally; "sat" for cover/vacuity obligations
+	Known   bool   // listed in known_findings.txt
+	Approx  bool   // Model comes from the quantifier-free part only
+	Witness map[string]string // source-level names used by the goal -> SMT terms
 }
 
 func newVC() *VC {
@@ -355,6 +359,11 @@ func (vc *VC) strLit(s string) Term {
 		return Term{n, SV}
 	}
 	name := sym(fmt.Sprintf("str!%d!%s", len(vc.strlits), abbreviate(s)))
+	if vc.litNames != nil {
+		if n, ok := vc.litNames[s]; ok {
+			name = n
+		}
+	}
 	vc.strlits[s] = name
 	vc.strorder = append(vc.strorder, s)
 	return Term{name, SV}
@@ -380,6 +389,14 @@ func abbreviate(s string) string {
 // distinctness, and the truth value of contains/hasprefix/hassuffix between
 // every pair of literals, plus per-byte facts used by the prelude (count of
 // LF etc).
+func (vc *VC) strLitDecls() []string {
+	var out []string
+	for _, s := range vc.strorder {
+		out = append(out, fmt.Sprintf("(declare-const %s V)", vc.strlits[s]))
+	}
+	return out
+}
+
 func (vc *VC) strLitFacts() []string {
 	var out []string
 	var names []string
@@ -387,7 +404,6 @@ func (vc *VC) strLitFacts() []string {
 	for _, s := range lits {
 		n := vc.strlits[s]
 		names = append(names, n)
-		out = append(out, fmt.Sprintf("(declare-const %s V)", n))
 	}
 	for _, s := range lits {
 		n := vc.strlits[s]
